@@ -260,6 +260,26 @@ def generate(tier):
                     for ctx in CTX[1:]:
                         for cfg in ('PO', 'OP_O', 'OP_P'):
                             cases.append(build(shape, focus, assign, ranks, cfg, ctx=ctx))
+    # field names that differ by the prefixes the templates use for their bindings (x, _x, __x, ...), and raw identifiers
+    from .common import zoo_cases
+    zc = '''    for (i, (a, ta)) in vs.iter().enumerate() {
+        for (j, (b, tb)) in vs.iter().enumerate() {
+            r.ck(a.partial_cmp(b) == ta.partial_cmp(tb), 0, &|| format!("values #{} and #{}: partial_cmp gives {:?}, #[derive(PartialOrd)] gives {:?}", i, j, a.partial_cmp(b), ta.partial_cmp(tb)));
+            CMP
+            r.ck((a < b, a <= b, a > b, a >= b) == (ta < tb, ta <= tb, ta > tb, ta >= tb), 2, &|| format!("values #{} and #{}: operators disagree with the standard derive", i, j));
+        }
+    }
+'''
+    cases += zoo_cases('C03|PO', 'PartialOrd', 'Debug, Clone, PartialEq', 'Debug, Clone, PartialEq, PartialOrd', zc.replace('CMP', ''))
+    cases += zoo_cases('C03|OP', 'PartialOrd, Ord', 'Debug, Clone, PartialEq, Eq', 'Debug, Clone, PartialEq, Eq, PartialOrd, Ord',
+                       zc.replace('CMP', 'r.ck(a.cmp(b) == ta.cmp(tb), 1, &|| format!("values #{} and #{}: cmp gives {:?}, #[derive(Ord)] gives {:?}", i, j, a.cmp(b), ta.cmp(tb)));'))
+    from .common import underscorify, rawify
+    named = [x for x in cases if ':n' in x.key or '|n' in x.key]
+    for c in named[::5]:
+        for tr in (underscorify, rawify):
+            r_ = tr(c)
+            if r_:
+                cases.append(r_)
     seen, out = set(), []
     for c in cases:
         if c.key not in seen:
